@@ -22,10 +22,16 @@ RULE = (
     "the full product. On top: a LARGE-store stream (the small structure plus 1000..2300 tiny planted file "
     "objects - sizes on and around multiples of fs.LIST_OBJECT_PAGE_SIZE=1000 - of which 0..3 are used; dry "
     "and real, both store classes; 32-hex md5 names and short 5-hex names) and a medium stream (20..999). "
-    "corpus/C06/*.json runs first. A case is non-trivial when gc removed at least one object and kept at "
+    "Next to some directory objects (used, unused, absent) a legacy <oid>.dir.unpacked directory with files is "
+    "planted. corpus/C06/*.json runs first. A case is non-trivial when gc removed at least one object and kept at "
     "least one, or raised."
 )
 ASSUMPTIONS = [
+    "the property speaks about the OBJECTS of the store: regular files at <root>/<2 chars>/<rest>. The legacy "
+    "<oid>.dir.unpacked side directories of old DVC caches are not objects (odb.all() does not list them, the "
+    "model does not contain them); that gc removes the side directory of an unused .dir object on local-class "
+    "stores even in a dry run (odb._remove_unpacked_dir) is outside the property and not judged - what is judged "
+    "is that the objects next to them are kept / removed / counted exactly as without them",
     "cache_odb enters the model as what it can load (g_trees) plus its algorithm name (g_cache_alg, carried but "
     "never read: C06_cache_alg_irrelevant); the used set is filtered by the COLLECTED store's algorithm "
     "(C06_other_alg); only md5 and md5-dos2unix stores are exercised (the algorithms Tree.load can read "
@@ -184,6 +190,16 @@ def run_case(ctx, case, fo, dirs, F):
         elif st == "notalist":
             impl.plant(cache, doid[dn], b'{"a": 1}')
         trees[dn] = st
+    # legacy layout of old DVC versions: a directory <object path>.unpacked (with files) next to a
+    # .dir object.  gc calls odb._remove_unpacked_dir for every unused .dir object, dry or not (local
+    # class: removes that side directory; base class: no-op).  They are not objects: odb.all() skips
+    # them (3 path parts) and so does walk_store (regular files at <2>/<rest> only).
+    for dn in case.get("unpacked", []):
+        up = os.path.join(store, doid[dn][:2], doid[dn][2:] + ".unpacked")
+        os.makedirs(os.path.join(up, "sub"), exist_ok=True)
+        for rel in ("a", os.path.join("sub", "b")):
+            with open(os.path.join(up, rel), "wb") as f:
+                f.write(b"unpacked copy")
     # when cache == store, planting into the cache changed the store: re-observe
     before = impl.walk_store(store)
     odb = impl.make_odb(cls, store, read_only=case.get("ro", False), hash_name=alg)
@@ -326,6 +342,16 @@ def sprinkle_cache(rng, c, dirnames):
         c["cache_alg"] = OTHER_ALG[c.get("alg", "md5")] if rng.random() < 0.7 else c.get("alg", "md5")
 
 
+def sprinkle_unpacked(rng, c, dirnames):
+    """legacy <oid>.dir.unpacked side directories next to some directory objects (used and unused
+    ones, and now and then next to one that is not in the store)"""
+    if rng.random() < 0.45:
+        pool = [dn for dn in dirnames if dn in c["dirs"] or rng.random() < 0.15]
+        pick = [dn for dn in pool if rng.random() < 0.7]
+        if pick:
+            c["unpacked"] = pick
+
+
 def gen_bulk(ctx, cases):
     """large- and medium-store cases: a small structural case + planted bulk file objects.
     The number of UNUSED bulk objects is what a batching implementation would count: put it on and
@@ -360,6 +386,7 @@ def gen_bulk(ctx, cases):
         if rng.random() < 0.25:
             c["alg"] = "md5-dos2unix"
         sprinkle_cache(rng, c, ["D1", "D2", "D3"])
+        sprinkle_unpacked(rng, c, ["D1", "D2", "D3"])
         if rng.random() < 0.2:
             c["stray"] = True
         out.append(c)
@@ -388,6 +415,7 @@ def run(ctx):
         if ctx.rng.random() < 0.15:
             c["alg"] = "md5-dos2unix"
         sprinkle_cache(ctx.rng, c, list(dirs))
+        sprinkle_unpacked(ctx.rng, c, list(dirs))
         c["used_kind"] = ctx.rng.choice(USED_KINDS)
     bulk_cases = gen_bulk(ctx, cases)
     corpus = load_corpus() + [
@@ -404,6 +432,8 @@ def run(ctx):
         ctx.count("mode:" + ("shallow" if c["shallow"] else "expand") + ("/dry" if c["dry"] else "/real"))
         ctx.count("class:" + c.get("cls", "local"))
         ctx.count("used_as:" + c.get("used_kind", "list"))
+        if c.get("unpacked"):
+            ctx.count("legacy-unpacked-dirs:" + c.get("cls", "local") + ("/dry" if c["dry"] else "/real"))
         ctx.count("cache_odb:" + ("omitted" if not (c.get("sep_cache") or c.get("cache_at_store")) else
                                   ("second-store" if c.get("sep_cache") else "second-odb-on-store-dir") +
                                   ("/other-alg" if c.get("cache_alg", c.get("alg", "md5")) != c.get("alg", "md5")
